@@ -25,7 +25,7 @@ ENUMS = [['vlab.tasks_core', 'Color', 'RED'], ['vlab.tasks_core', 'Color', 'GREE
          ['vlab.tasks_core', 'Evaluate.Mode', 'FAST'], ['vlab.tasks_core', 'Evaluate.Mode', 'FULL']]
 TASKS = [['vlab.tasks_core', 'VA'], ['vlab.tasks_core', 'VB'], ['vlab.tasks_core', 'VAX'],
          ['vlab.tasks_alt', 'VA'], ['vlab.tasks_core', 'VJ'], ['vlab.tasks_core', 'VP'], ['vlab.tasks_core', 'VU'],
-         ['vlab.tasks_core', 'V\u00c9'], ['vlab.tasks_core', 'V__W_']]
+         ['vlab.tasks_core', 'V\u00c9'], ['vlab.tasks_core', 'V__W_'], ['vlab.tasks_core', 'kick_']]
 KEYS = ['a', 'b', 'k', '', 'é', 'name', 'is_task', 'x.y', '0', 'p']
 UNSUPPORTED = ['set', 'bytes', 'object', 'complex', 'intkey', 'nonekey', 'tuplekey', 'frozenset', 'bytearray',
                'function', 'type', 'mixedkey-int', 'mixedkey-none', 'mixedkey-tuple', 'mixedkey-last']
